@@ -231,7 +231,7 @@ static void do_ops(char* ops, int in_cb) {
       }
       break;
     case 'b':
-      if (g_kind != 't' || g_closing) break;
+      if (g_kind != 't' || g_closing || h.stream.connect_req != NULL) break;   /* no bind while a connect is pending */
       {
         struct sockaddr_in a; memset(&a, 0, sizeof a);
         a.sin_family = AF_INET; a.sin_addr.s_addr = htonl(INADDR_LOOPBACK);
@@ -240,7 +240,7 @@ static void do_ops(char* ops, int in_cb) {
       }
       break;
     case 'B':
-      if (g_kind != 't' || g_closing) break;
+      if (g_kind != 't' || g_closing || h.stream.connect_req != NULL) break;
       {
         struct sockaddr_in a; memset(&a, 0, sizeof a);
         a.sin_family = AF_INET; a.sin_addr.s_addr = htonl(INADDR_LOOPBACK); a.sin_port = htons(lport);
